@@ -2,7 +2,7 @@
 META = {
     "level": "exploration",
     "technique": "history oracle beside the real BackupDB_v2 on a real sqlite file: seeded histories of stat changes, uploads, checks, directory snapshots and db reopen, with backupdb's os.stat / time / random substituted by harness-controlled shims",
-    "text": "Runs the real allmydata.scripts.backupdb (get_backupdb, check_file, FileResult.did_upload / should_check / did_check_healthy, check_directory, DirectoryResult.did_create / did_check_healthy, v1->v2 schema upgrade) on a temporary sqlite file through histories of <=40 steps over <=5 paths (plus path aliases): size-only / mtime-only / ctime-only changes, touching back to earlier values, renames, uploads, re-uploads with a different or a shared cap, stale FileResults completed late, use_timestamps=False, health checks at virtual ages around the 1- and 2-month thresholds, db close/reopen, directory snapshots with near-miss mutations (one name, one cap, an added/removed entry, shifted name/cap boundary, unicode normalisation). Oracle map: was_uploaded() is a cap only if the most recent did_upload for that path recorded exactly the current (size, mtime, ctime), timestamps are trusted, and it is that record's cap; was_created() is a dircap only for an identical name->cap mapping and it is a dircap recorded for exactly that mapping. Sampled.",
+    "text": "Runs the real allmydata.scripts.backupdb (get_backupdb, check_file, FileResult.did_upload / should_check / did_check_healthy, check_directory, DirectoryResult.did_create / did_check_healthy, v1->v2 schema upgrade) on a temporary sqlite file through histories of <=40 steps over <=5 absolute paths (plus path aliases) and, in 60% of the histories, up to 4 more files in two real directories that take turns as working directory and $HOME (relative and '~' spellings, chdir / HOME changes between operations): size-only / mtime-only / ctime-only changes, touching back to earlier values, renames, uploads, re-uploads with a different or a shared cap, stale FileResults completed late, use_timestamps=False, health checks at virtual ages around the 1- and 2-month thresholds, db close/reopen, directory snapshots with near-miss mutations (one name, one cap, an added/removed entry, two caps swapped or three rotated among unchanged names, shifted name/cap boundary, unicode normalisation). Oracle map: was_uploaded() is a cap only if the most recent did_upload for that path recorded exactly the current (size, mtime, ctime), timestamps are trusted, and it is that record's cap; was_created() is a dircap only for an identical name->cap mapping and it is a dircap recorded for exactly that mapping. Sampled.",
     "note": "Reuse is judged in the safe direction only (the statement says 'only when'); that reuse happens at all is a required reach counter. stat values are integers as os.stat()[ST_*] delivers them.",
 }
 LEVEL = "exploration"
@@ -51,6 +51,7 @@ def run(ck):
             self.calls = 0
         def stat(self, path):
             self.calls += 1
+            self.last = path
             try:
                 size, mtime, ctime = self.table[path]
             except KeyError:
@@ -71,10 +72,24 @@ def run(ck):
 
     def spelled(path):
         d, f = os.path.split(path)
+        # a file in the current working directory is mostly named relatively, one in $HOME mostly with "~"
+        if d == os.getcwd() and rng.random() < .8:
+            ck.hit("relative-spelling")
+            return rng.choice([f, f, u"./" + f, u"sub/../" + f])
+        if d == os.environ.get("HOME") and rng.random() < .8:
+            ck.hit("tilde-spelling")
+            return rng.choice([u"~/" + f, u"~/./" + f])
         return rng.choice([path, path, d + u"/./" + f, d + u"/sub/../" + f, d + u"//" + f])
 
+    saved_cwd, saved_home = os.getcwd(), os.environ.get("HOME")
+
     nhist = 300 if ck.tier == "quick" else 2500
-    tmp = tempfile.mkdtemp(prefix="vf-")
+    tmp = os.path.realpath(tempfile.mkdtemp(prefix="vf-"))
+    # two real directories to stand in for working directories / home directories (the files in them are virtual:
+    # stat() is answered by the shim); the same relative name means a different file in each
+    places = [os.path.join(tmp, d) for d in (u"place-a", u"place-b")]
+    for d in places:
+        os.mkdir(d)
     try:
         for h in range(nhist):
             if ck.out_of_time():
@@ -89,6 +104,10 @@ def run(ck):
             on_v1 = start_v1
             names = rng.sample([u"f0", u"f1", u"fé", u"with space", u"f4.txt"], rng.randint(1, 5))
             paths = [BASE + u"/" + n for n in names]
+            moving = rng.random() < .6       # history with cwd / HOME changes and relative / "~" spellings
+            if moving:
+                paths += [d + u"/" + n for d in places for n in rng.sample([u"data.bin", u"f0", u"notes é.txt"], 2)][:4]
+                os.chdir(rng.choice(places)); os.environ["HOME"] = rng.choice(places)
             shim.table.clear()
             for p in paths:
                 shim.table[p] = (rng.choice([0, 1, 1000, 2 ** 31, 2 ** 40]), 1_600_000_000 + rng.randrange(10 ** 6),
@@ -104,7 +123,21 @@ def run(ck):
             def do_check(p, use_ts=True):
                 st = shim.table[p]
                 sp = spelled(p)
-                r = bdb.check_file(sp, use_timestamps=use_ts)
+                shim.last = None
+                try:
+                    r = bdb.check_file(sp, use_timestamps=use_ts)
+                except FileNotFoundError:
+                    r = None
+                ck.mon("file-identity-oracle")
+                if shim.last != p:
+                    # observed at the stat() boundary: the database looked at (and would key its record by) another file
+                    ck.violation("check-file-resolves-name-to-a-different-file",
+                                 "check_file(%r) with cwd=%s HOME=%s examined %r, not %r" % (
+                                     sp, os.path.basename(os.getcwd()), os.path.basename(os.environ.get("HOME", "")), shim.last, p),
+                                 {"spelled": sp, "cwd": os.getcwd(), "home": os.environ.get("HOME"), "stat_called_on": shim.last,
+                                  "expected": p, "steps": steps[-12:]})
+                if r is None:
+                    return None, st, False
                 got = r.was_uploaded()
                 ck.mon("file-reuse-oracle")
                 rec = records.get(p)
@@ -143,7 +176,26 @@ def run(ck):
                 op = rng.choice(["size", "mtime", "ctime", "all", "touch-back", "rename",
                                  "check", "check", "check", "check+upload", "check+upload", "check+upload",
                                  "check-no-ts", "late-upload", "healthy", "clock", "clock-big", "reopen",
-                                 "dir", "dir", "dir-mutant"])
+                                 "dir", "dir", "dir-mutant"] + (["chdir", "chdir", "sethome", "twin-check+upload",
+                                                                 "twin-check+upload"] if moving else []))
+                if op == "chdir":
+                    os.chdir([d for d in places if d != os.getcwd()][0])
+                    ck.hit("cwd-changed")
+                    steps.append((op, os.path.basename(os.getcwd())))
+                    continue
+                if op == "sethome":
+                    os.environ["HOME"] = [d for d in places if d != os.environ["HOME"]][0]
+                    ck.hit("home-changed")
+                    steps.append((op, os.path.basename(os.environ["HOME"])))
+                    continue
+                if op == "twin-check+upload":
+                    # same relative name, looked at from the place where we are now
+                    here = rng.choice([os.getcwd(), os.environ["HOME"]])
+                    cands = [x for x in paths if os.path.dirname(x) == here]
+                    if not cands:
+                        continue
+                    p = rng.choice(cands)
+                    op = "check+upload"
                 steps.append((op, os.path.basename(p)))
                 if op in ("size", "mtime", "ctime", "all"):
                     s, m, c = shim.table[p]
@@ -171,10 +223,14 @@ def run(ck):
                     ck.hit("stat-change:rename")
                 elif op in ("check", "check-no-ts"):
                     r, st, got = do_check(p, use_ts=(op == "check"))
+                    if r is None:
+                        continue
                     if rng.random() < .4:
                         pending.append((p, st, r))
                 elif op == "check+upload":
                     r, st, got = do_check(p)
+                    if r is None:
+                        continue
                     if got is False or rng.random() < .3:
                         kind = rng.choice(["new", "new", "new", "same-as-before", "shared-with-other-path"])
                         cap = newcap()
@@ -198,6 +254,8 @@ def run(ck):
                     ck.hit("upload:late-stale-result")
                 elif op == "healthy":
                     r, st, got = do_check(p)
+                    if r is None:
+                        continue
                     if got is not False:
                         sc = r.should_check()
                         ck.hit("should_check:%s" % sc)
@@ -222,9 +280,24 @@ def run(ck):
                         contents[rng.choice([u"1:a,", u"a", u"ab", u"é", u"é", u""])] = tob(newcap(rng.choice([b"URI:CHK:", b"1:b,", b""])))
                     mutation = "none"
                     if op == "dir-mutant" and dir_records:
-                        base = dict(rng.choice(sorted(dir_records, key=repr)))
+                        mutation = rng.choice(["one-cap", "one-name", "add", "remove", "shift-boundary", "normalise",
+                                               "swap-caps", "swap-caps", "rotate-caps", "none"])
+                        cands = sorted(dir_records, key=repr)
+                        if mutation in ("swap-caps", "rotate-caps"):
+                            # same names, same multiset of caps, different assignment: needs >=2 (3) distinct caps
+                            need = 2 if mutation == "swap-caps" else 3
+                            good = [k for k in cands if len(set(v for _, v in k)) >= need]
+                            if not good:
+                                fresh = {u"n%d" % i: tob(newcap()) for i in range(need)}
+                                r0 = bdb.check_directory(dict(fresh))
+                                if r0.was_created() is False:
+                                    dc0 = newcap(b"URI:DIR2-CHK:")
+                                    r0.did_create(dc0)
+                                    dir_records.setdefault(frozenset(fresh.items()), []).append(tob(dc0))
+                                good = [frozenset(fresh.items())]
+                            cands = good
+                        base = dict(rng.choice(cands))
                         contents = dict(base)
-                        mutation = rng.choice(["one-cap", "one-name", "add", "remove", "shift-boundary", "normalise", "swap-caps", "none"])
                         ks = sorted(contents)
                         if mutation == "one-cap" and ks:
                             contents[rng.choice(ks)] = tob(newcap())
@@ -249,9 +322,18 @@ def run(ck):
                                 alt = unicodedata.normalize("NFC", k)
                             if alt != k:
                                 contents[alt] = contents.pop(k)
-                        elif mutation == "swap-caps" and len(ks) > 1:
+                        elif mutation == "swap-caps":
                             a, b = rng.sample(ks, 2)
+                            while contents[a] == contents[b]:
+                                a, b = rng.sample(ks, 2)
                             contents[a], contents[b] = contents[b], contents[a]
+                        elif mutation == "rotate-caps":
+                            distinct = []
+                            for k in ks:
+                                if contents[k] not in [contents[d] for d in distinct]:
+                                    distinct.append(k)
+                            a, b, c3 = distinct[:3]
+                            contents[a], contents[b], contents[c3] = contents[b], contents[c3], contents[a]
                         ck.hit("dir-mutation:" + mutation)
                     key = frozenset(contents.items())
                     r = bdb.check_directory(dict(contents))
@@ -292,15 +374,21 @@ def run(ck):
                     nontrivial=("reuse" in flags and "refuse" in flags),
                     sample={"paths": len(paths), "steps": [s[0] for s in steps][:40], "flags": sorted(flags)})
     finally:
+        os.chdir(saved_cwd)
+        if saved_home is None:
+            os.environ.pop("HOME", None)
+        else:
+            os.environ["HOME"] = saved_home
         backupdb.os, backupdb.time, backupdb.random = saved
         shutil.rmtree(tmp, ignore_errors=True)
 
     ck.extra["stat_calls_answered_by_shim"] = shim.calls
-    ck.require_monitor("file-reuse-oracle", "directory-reuse-oracle")
+    ck.require_monitor("file-reuse-oracle", "file-identity-oracle", "directory-reuse-oracle")
     ck.require_reach("file-cap-reused", "dircap-reused", "refused-because-only-size-changed",
                      "refused-because-only-mtime-changed", "refused-because-only-ctime-changed",
                      "refused-because-timestamps-untrusted", "upload:late-stale-result", "reopen",
-                     "stat-change:touch-back", "dir-mutation:one-cap", "dir-mutation:one-name")
+                     "stat-change:touch-back", "dir-mutation:one-cap", "dir-mutation:one-name", "dir-mutation:swap-caps", "dir-mutation:rotate-caps",
+                     "relative-spelling", "tilde-spelling", "cwd-changed", "home-changed")
     ck.exhaustive = False
 
 
@@ -316,3 +404,8 @@ def run(ck):
 #   dirhash over names only ...................................... caught: reuses-dircap-for-different-contents, reuses-wrong-dircap
 #   dirhash over caps only ....................................... caught: reuses-dircap-for-different-contents, reuses-wrong-dircap
 #   dirhash over undelimited name+cap ............................ caught: reuses-dircap-for-different-contents (shift-boundary mutant)
+
+# Round 3: seeded C42-5 / selftest c42-abspath-memoised (lru_cache on abspath_expanduser_unicode) and
+#   c42-path-not-made-absolute ............ caught: check-file-resolves-name-to-a-different-file (+ reuses-cap-without-upload-record)
+#   seeded C42-2 / c42-dirhash-names-and-caps-sorted-separately ... caught: reuses-dircap-for-different-contents (swap-caps / rotate-caps)
+# The list lives in selftest/breaks_c42.py (14/14 caught); seeded C42-1..6: 6/6 caught.
